@@ -146,7 +146,13 @@ DateStep(e) ==
     [] e.op = "date.vars" ->
          DateSetVars(OptD(e.from), OptD(e.to)) /\ Note(<<>>) /\ UNCHANGED ctx
     [] e.op = "date.fbuild" ->
-         DateFilterBuild /\ Note(FBuildDemands(e, dRet')) /\ UNCHANGED ctx
+         \* DateFilterBuild, re-synchronised with the real outcome so that a mismatch never
+         \* dead-ends the trace: the filter list follows what the code actually built
+         /\ LET r == FilterBuildRef(dVars.from, dVars.to) IN
+              /\ dRet' = r
+              /\ dFilt' = IF e.ok THEN Append(dFilt, [from |-> dVars.from, to |-> dVars.to]) ELSE dFilt
+              /\ Note(FBuildDemands(e, r))
+         /\ UNCHANGED <<dMax, dRecv, dVars, ctx>>
     [] e.op = "date.fcontains" ->
          DateFilterContains(e.i, Dt(e.p)) /\ Note(FContainsDemands(e, dRet')) /\ UNCHANGED ctx
 
